@@ -37,13 +37,19 @@ def _alarm(signum, frame):
 
 
 class Ctx:
-    __slots__ = ('fails', 'evals', 'outcome', 'case')
+    __slots__ = ('fails', 'evals', 'outcome', 'case', 'sub_states', 'sub_nontrivial', 'sub_outcomes', 'sub_levels')
 
     def __init__(self, case):
         self.fails = []
         self.evals = 0
         self.outcome = None
         self.case = case
+        # a case may bundle many sub-states (e.g. all strings with a given prefix); each one is executed on the
+        # implementation inside check(); failures then carry subcase=<the single state> for a minimal replay file
+        self.sub_states = 0
+        self.sub_nontrivial = 0
+        self.sub_outcomes = None
+        self.sub_levels = None
 
     def fail(self, clause, expected=None, observed=None, **extra):
         f = {'clause': clause, 'expected': _short(expected), 'observed': _short(observed)}
@@ -147,27 +153,46 @@ def _worker(args):
                 r['nontrivial'] += 1
             ctx = run_case(mod, case)
             r['evals'] += ctx.evals
+            if ctx.sub_states:
+                r['states'] += ctx.sub_states
+                r['transitions'] += ctx.sub_states
+                r['nontrivial'] += ctx.sub_nontrivial
+                r['distinct'] += ctx.sub_states
+                if ctx.sub_levels:
+                    for lv, n_ in ctx.sub_levels.items():
+                        r['levels'][lv] = r['levels'].get(lv, 0) + n_
+                if ctx.sub_outcomes:
+                    for o in ctx.sub_outcomes:
+                        if len(r['outcomes']) < MAX_OUTCOMES_PER_SHARD:
+                            r['outcomes'].add(lib.h64(o))
             if ctx.outcome is not None and len(r['outcomes']) < MAX_OUTCOMES_PER_SHARD:
                 r['outcomes'].add(lib.h64(ctx.outcome))
             if len(r['samples']) < MAX_SAMPLES_PER_SHARD and (nontrivial or r['states'] == 1):
                 r['samples'].append(case)
             if ctx.fails:
                 r['nfails'] += 1
-                fc = {'case': case, 'level': level, 'failures': ctx.fails}
-                ids = findings.attribute(mod, open_entries, fc)
-                if ids:
-                    for i in ids:
-                        r['known'][i] = r['known'].get(i, 0) + 1
-                        ex = r['known_examples'].setdefault(i, [])
-                        if len(ex) < 2:
-                            ex.append(case)
-                else:
-                    r['nunknown'] += 1
-                    if len(r['fails']) < MAX_FAILS_PER_SHARD:
-                        r['fails'].append(fc)
+                # failures of bundled sub-states are regrouped per sub-state (each gets its own replay file)
+                groups = {}
+                for f in ctx.fails:
+                    sc = f.pop('subcase', None)
+                    key = lib.jkey(sc) if sc is not None else ''
+                    groups.setdefault(key, (sc if sc is not None else case, []))[1].append(f)
+                for key, (c2, fl) in groups.items():
+                    fc = {'case': c2, 'level': level, 'failures': fl}
+                    ids = findings.attribute(mod, open_entries, fc)
+                    if ids:
+                        for i in ids:
+                            r['known'][i] = r['known'].get(i, 0) + 1
+                            ex = r['known_examples'].setdefault(i, [])
+                            if len(ex) < 2:
+                                ex.append(c2)
+                    else:
+                        r['nunknown'] += 1
+                        if len(r['fails']) < MAX_FAILS_PER_SHARD:
+                            r['fails'].append(fc)
     except Exception as e:
         r['harness_error'] = f'{type(e).__name__}: {e}\n{traceback.format_exc()[-2000:]}'
-    r['distinct'] = len(seen)
+    r['distinct'] += len(seen)
     if _global_digest() != _worker_state['digest']:
         r['harness_error'] = (r['harness_error'] or '') + f' process-wide library state changed during shard {shard}'
         _worker_state['digest'] = _global_digest()
